@@ -419,3 +419,46 @@ Definition no_empty_on (id : N) (h : list cevent) : bool :=
                      | CWrite n => negb (n_id n =? id) || negb (blen (n_data n) =? 0)
                      | _ => true
                      end) h.
+
+(* ---------- writers running concurrently with the copy loop ---------- *)
+(* Volume.Compact takes no lock: while ScanVolumeFile walks the .dat, writers append records
+   and change the LIVE needle map that VisitNeedle consults.  [sched] lists, for the visit of
+   the 1st, 2nd, ... record, the operations that complete between the moment the scanner has
+   read that record from the file and the moment VisitNeedle looks the key up in the map.
+   The scanner reads the file as it grows, so records appended during the scan are visited
+   too.  When the scanner reaches the end of the file the scan is over; operations still in
+   [sched] then happen after it.  With [sched = []] this is [compact_scan]. *)
+Fixpoint scan_il (vt : N * N) (now_s : N) (sched : list (list cevent)) (s : cvol) (i : nat) (a : cacc) : cacc :=
+  match sched with
+  | [] => fold_left (scan_visit vt now_s (nm (cv s))) (skipn i (rev (recs (cv s)))) a
+  | evs :: sched' =>
+      match nth_error (rev (recs (cv s))) i with
+      | Some r => let s' := c_exec vt s evs in
+                  scan_il vt now_s sched' s' (S i) (scan_visit vt now_s (nm (cv s')) a r)
+      | None => a
+      end
+  end.
+
+(* Compact2 loads the .idx into a private MemDb before its loop and reads the append-only
+   .dat at the offsets found there: operations during its loop are the same as after it. *)
+Definition compact_il (al : alg) (vt : N * N) (now_s : N) (sched : list (list cevent)) (s : cvol) : files :=
+  files_of (match al with Scan => scan_il vt now_s sched s 0 acc0 | Index => compact_index vt now_s s end).
+
+(* run h1, start Compact/Compact2, the operations of [sched] during the copy loop, the
+   operations of h2 after it, CommitCompact *)
+Definition compacted_files_il (g : cfg) (al : alg) (now_s : N) (ord : list N)
+    (h1 : list cevent) (sched : list (list cevent)) (h2 : list cevent) : files :=
+  let s1 := c_exec (g_vttl g) cinit h1 in
+  let s2 := c_exec (g_vttl g) s1 (concat sched ++ h2) in
+  if makeup_fails (length (cidx s1)) s2 then old_files s2
+  else makeup ord (compact_il al (g_vttl g) now_s sched s1) (length (cidx s1)) s2.
+
+(* per-key forms of the hypotheses *)
+Definition writes_key (id : N) (ev : cevent) : bool :=
+  match ev_needle ev with Some n => n_id n =? id | None => false end.
+Definition ttl_consistent_on (id : N) (vt : N * N) (now_s now_r : N) (h1 : list cevent) : bool :=
+  forallb (fun ev => negb (writes_key id ev) || ttl_ok vt now_s now_r ev) h1.
+
+(* the volume (with its .idx) that serves requests after CommitCompact *)
+Definition committed (F : files) : cvol :=
+  {| cv := commit F; cidx := skipn (fst (fst (check_files F))) (f_idx F) |}.
